@@ -1129,7 +1129,7 @@ def apply_step(acc, ds, kind, step, depth, prog):
             new = t.explode(_dig(t.ns, path), name='renamed') if use == 'name' else t.explode(_dig(t.ns, path))
             if use == 'annotate':
                 check_table(acc, new, prog, op + ':explode')
-                e = _dig(new.ns, path) + 1
+                e = hl.tuple([_dig(new.ns, path), hl.is_defined(_dig(new.ns, path))])    # valid whatever type the field has
                 check_expr(acc, e, new, 'ht', 'row', prog, 'use_exploded_nested')
                 new = new.annotate(y=e)
             elif use == 'select':
@@ -1252,7 +1252,7 @@ def apply_step(acc, ds, kind, step, depth, prog):
         new = t.explode_rows(_dig(t.ns, path)) if axis == 'rows' else t.explode_cols(_dig(t.ns, path))
         if use != 'none':
             check_mt(acc, new, prog, op + ':explode')
-            e = _dig(new.ns, path) + 1 if use == 'annotate' else hl.struct(v=_dig(new.ns, path), w=new.a)
+            e = hl.tuple([_dig(new.ns, path), 1]) if use == 'annotate' else hl.struct(v=_dig(new.ns, path), w=new.a)
             check_expr(acc, e, new, 'mt', 'row' if axis == 'rows' else 'col', prog, 'use_exploded_nested')
             if use == 'annotate':
                 new = new.annotate_rows(y=e) if axis == 'rows' else new.annotate_cols(y=e)
